@@ -36,7 +36,8 @@ RULE = (
     "set / with / for target / macro parameter / context variable named like an engine-special name (caller, varargs, "
     "kwargs, self, super, loop, context, environment, ...), list/tuple/dict/namespace element, result of default/first/last/select/list filters, conditional and boolean "
     "expressions, loop.cycle, returned by another call, argument of filters/tests/calls/macros, if/for/set/with/filter "
-    "block/autoescape/do positions, blocks and self.block(), included template, imported macro, child block and "
+    "block/autoescape/do positions, the i18n extension's _() alias with the callable bound to `gettext` by set (top level, "
+    "loop, block scope) or as a context variable, blocks and self.block(), included template, imported macro, child block and "
     "super()) x argument shape (none, positional, keyword, *args, **kwargs) x reachability wrapper (if/else/elif, "
     "empty loop, loop else, filtered loop) x safe calls made before the call site (safe bound-method calls on the same "
     "object directly / in a loop / through a macro, earlier renders on the same environment object) x "
@@ -316,7 +317,7 @@ def _make_env(case):
     s = _setup()
     cls = s["Override"] if case["env"] == "override" else s["SandboxedEnvironment"]
     loader = s["jinja2"].DictLoader(dict(case.get("loader") or {}))
-    return cls(enable_async=case["async"], loader=loader, extensions=["jinja2.ext.do"], cache_size=0)
+    return cls(enable_async=case["async"], loader=loader, extensions=["jinja2.ext.do", "jinja2.ext.i18n"], cache_size=0)
 
 
 def check_case(case):
